@@ -626,6 +626,36 @@ def rule_d(ctx: Context, R: Reporter, cc: ClassInfo, v: FuncInfo):
     R.check("C18.d", f"no name-crossed positional argument among {n_pos} positional name arguments of internal calls", True, None, None, key="crossed-argument-scan", loc="tempest/")
 
 
+def rule_e(ctx: Context, R: Reporter):
+    """C18.e  the documented cap n_max_steps * n_dim bounds the number of MCMC steps for every valid pair
+    (n_steps, n_max_steps), including n_steps > n_max_steps: where the kernel combines the floor, the adaptive
+    estimate and the cap, the cap is applied last (outermost `min(., cap)`)."""
+    from .c07 import kernel_base
+
+    base = kernel_base(ctx)
+    n = 0
+    for c in [base] + ctx.prog.subclasses(base):
+        for m in c.methods.values():
+            fl = flow_of(m.node)
+            rs = ExprResolver(m.node)
+            for r in walk_no_nested(m.node):
+                if not isinstance(r, ast.Return) or r.value is None:
+                    continue
+                rx = rs.resolve(r.value, fl.node_containing(r))
+                if "n_max" not in norm_text(rx) or "n_steps" not in norm_text(rx):
+                    continue
+                e = rx
+                while isinstance(e, ast.Call) and dotted(e.func) in ("int", "float", "np.int64", "round") and e.args:
+                    e = e.args[0]
+                n += 1
+                ok = isinstance(e, ast.Call) and dotted(e.func).split(".")[-1] in ("min", "minimum") and len(e.args) == 2 and \
+                    any("n_max" in norm_text(a) and "n_steps" not in norm_text(a) for a in e.args)
+                R.check("C18.e", "the step cap n_max_steps * n_dim is applied after the floor", ok, m, r,
+                        msg=f"{m.short}: `{unparse(r)[:80]}` does not end in min(., n_max * n_dim): for n_steps > n_max_steps (a valid combination) the floor n_steps * n_dim wins over "
+                            f"the documented cap and an iteration runs more steps / likelihood calls than n_max_steps allows", key=f"cap-last:{m.short}")
+    R.floor("C18.e", "returns combining the step floor and the step cap", n, 1)
+
+
 def run(ctx: Context, R: Reporter):
     cc = config_class(ctx)
     v = validate_fn(ctx, cc)
@@ -633,6 +663,7 @@ def run(ctx: Context, R: Reporter):
     R.guard(rule_b, ctx, R, cc, v)
     R.guard(rule_c, ctx, R, cc, v)
     R.guard(rule_d, ctx, R, cc, v)
+    R.guard(rule_e, ctx, R)
 
 
 def variants():
